@@ -387,7 +387,27 @@ func (s *Session) Cat(name string) ([]byte, error) {
 		file.Close()
 		return nil, err
 	}
-	b, err := io.ReadAll(file)
+	// not io.ReadAll: File.Read returns -1 together with an error, which ReadAll turns into a
+	// panic of its own (part of finding F23); the loop below reads like io.Copy does
+	var b []byte
+	err = nil
+	buf := make([]byte, 4096)
+	for {
+		n, rerr := file.Read(buf)
+		if n > 0 {
+			b = append(b, buf[:n]...)
+		}
+		if rerr == io.EOF {
+			break
+		}
+		if rerr != nil {
+			err = rerr
+			break
+		}
+		if n == 0 {
+			break
+		}
+	}
 	cerr := file.Close()
 	if err != nil {
 		return nil, err
